@@ -809,6 +809,23 @@ impl SA {
                     };
                     g.end(to_res(r, |_| Rep::None));
                 }
+                Step::StopSelf => {
+                    let r = match &me {
+                        Me::Strong(r) => Some((*r).clone()),
+                        Me::Weak(w) => w.upgrade(),
+                    };
+                    if let Some(r) = r {
+                        sh.model_add(idx, 1, "tmp+");
+                        let _tmp = TmpRef { sh: &sh, actor: idx };
+                        let h = H::from_ref(r, &sh);
+                        tokio::select! {
+                            biased;
+                            _ = stop_via(&sh, ctx, idx, &h) => {}
+                            _ = tokio::time::sleep(Duration::from_millis(4)) => {}
+                        }
+                        drop(h);
+                    }
+                }
                 Step::KillPeer(t) => {
                     if let Some(h) = sh.peer(*t) {
                         sh.model_add(*t, 1, "tmp+");
